@@ -154,6 +154,28 @@ func vfEdits() []vfEdit {
 			tl.AddChild(s)
 			return true
 		}},
+		{"S-bulk-replace", func(root *etree.Element, rng *rand.Rand) bool {
+			// a timeline whose length changes a lot at once (window jump, new period): lists of very different lengths
+			tl := vfPick(rng, vfTimelines(root))
+			if tl == nil {
+				return false
+			}
+			keep := rng.Intn(3)
+			for i, c := range tl.ChildElements() {
+				if i >= keep {
+					tl.RemoveChild(c)
+				}
+			}
+			n := []int{0, 1, 2, 6, 13, 30}[rng.Intn(6)]
+			for i := 0; i < n; i++ {
+				s := tl.CreateElement("S")
+				if len(tl.ChildElements()) == 1 {
+					s.CreateAttr("t", fmt.Sprint(1000*rng.Intn(50)))
+				}
+				s.CreateAttr("d", fmt.Sprint(1000+i*7+rng.Intn(5))) // all different: nothing to merge
+			}
+			return true
+		}},
 		{"S-remove-first", func(root *etree.Element, rng *rand.Rand) bool {
 			tl := vfPick(rng, vfTimelines(root))
 			if tl == nil || len(tl.ChildElements()) < 2 {
